@@ -765,7 +765,10 @@ class Emitter:
                     # frame of the loop: every local declared so far (an over-approximation, so the invariant must carry
                     # whatever is needed); keeps the contract independent of incidental temporaries
                     self.rules["loop-frame-locals"] += 1
-                    lc = lc.replace("@LOCALS@", ", ".join(cx.get("local_decls", [])) or "jpv_nothing")
+                    loc_ = ", ".join(cx.get("local_decls", []))
+                    if not loc_:
+                        lc = lc.replace("@LOCALS@, ", "").replace(", @LOCALS@", "")
+                    lc = lc.replace("@LOCALS@", loc_ or "jpv_nothing")
                 lc = "\n".join(pad + "  " + l for l in lc.strip().splitlines()) + "\n"
             g_begin, g_end = cx["loop_contracts"].get(("begin", ordinal)), cx["loop_contracts"].get(("end", ordinal))
             if g_begin or g_end:
